@@ -43,3 +43,43 @@ package mkvs
 //@   requires t != nil && t.cache != nil
 //@   precall mkvs\.cache\)\.setPendingRoot$ :: t.withoutWriteLog || (entry != nil && entry.value == nil && entry.insertedLeaf == nil) || (entry == nil && t.pendingWriteLog[ufr[string]("toMapKey", key)] != nil && t.pendingWriteLog[ufr[string]("toMapKey", key)].insertedLeaf == nil && t.pendingWriteLog[ufr[string]("toMapKey", key)].value == nil)
 //@   note after a removal the entry recorded for the key has no value and no inserted leaf: the stored log will contain a deletion (or nothing, if the key did not exist before)
+
+// ---- overlay (C03) ----
+
+//@ ghost func OvDirty(o *treeOverlay, k string) bool { return o.dirty[k] }
+//@ ghost func OvPresent(o *treeOverlay, k string) bool { return btHas(o.overlay, k) && !btNil(o.overlay, k) }
+// View of an overlay at key k: if the key is dirty, the overlay's own binding
+// decides (present iff bound to a non-nil slice - a nil result of Get means
+// "absent" to every caller); otherwise the inner tree decides.
+
+//@ func treeOverlay.Insert
+//@   props C03
+//@   safety nil
+//@   requires o != nil && o.dirty != nil
+//@   ensures err == nil
+//@   ensures OvDirty(o, string(key)) && btHas(o.overlay, string(key)) && (value != nil ==> btBytes(o.overlay, string(key)) == bytesId(value))
+//@   ensures OvPresent(o, string(key))
+//@   note after Insert the key is present in the overlay's view with exactly the given bytes - for EVERY value, including the empty byte string passed as a nil slice (tree.Insert normalises nil to an empty slice; an ordered map has no "absent" value)
+
+//@ func treeOverlay.Remove
+//@   props C03
+//@   safety nil
+//@   requires o != nil && o.dirty != nil
+//@   ensures err == nil
+//@   ensures OvDirty(o, string(key)) && !btHas(o.overlay, string(key))
+
+//@ func treeOverlay.Get
+//@   props C03
+//@   safety nil
+//@   requires o != nil
+//@   ensures-local OvDirty(o, string(key)) ==> err == nil && (result0 != nil) == OvPresent(o, string(key)) && (OvPresent(o, string(key)) ==> bytesId(result0) == btBytes(o.overlay, string(key)))
+//@   note a dirty key is answered from the overlay alone, a clean key by the inner tree
+
+//@ func treeOverlay.RemoveExisting
+//@   props C03
+//@   safety nil
+//@   requires o != nil && o.dirty != nil
+//@   ensures old(OvDirty(o, string(key))) ==> err == nil && (result0 != nil) == old(OvPresent(o, string(key))) && OvDirty(o, string(key)) && !btHas(o.overlay, string(key))
+//@   ensures old(OvDirty(o, string(key)) && OvPresent(o, string(key))) ==> bytesId(result0) == old(btBytes(o.overlay, string(key)))
+//@   ensures !old(OvDirty(o, string(key))) && err == nil ==> OvDirty(o, string(key)) == (result0 != nil) && !btHas(o.overlay, string(key)) == !old(btHas(o.overlay, string(key)))
+//@   note returns the previous value of the view and leaves the key absent in the view: a dirty key loses its overlay binding, a clean key that exists in the inner tree becomes dirty without a binding, a clean key that does not exist stays clean
